@@ -1087,6 +1087,7 @@ pub fn check_output(which: &str, text: &str, comp: &BTreeMap<String, Val>) -> Ve
                         kind: "static".into(),
                         ty: String::new(),
                         declared_len: None,
+                        declared_len_name: None,
                         value,
                     })
                     .filter(|it| {
@@ -1117,15 +1118,15 @@ pub fn check_output(which: &str, text: &str, comp: &BTreeMap<String, Val>) -> Ve
     };
     let expected: &[&str] = if which == "layout" { &LAYOUT_ITEMS } else { &LIKELY_ITEMS };
     let mut seen: BTreeSet<&str> = BTreeSet::new();
+    // helper items next to the tables (named lengths and the like) are not table content: C18
+    // speaks about the ten tables. They are kept only to resolve a length written by name.
+    let helpers: BTreeMap<&str, &Val> = items
+        .iter()
+        .filter(|it| !expected.contains(&it.name.as_str()))
+        .map(|it| (it.name.as_str(), &it.value))
+        .collect();
     for it in &items {
         if !expected.contains(&it.name.as_str()) {
-            out.push(viol(
-                "R2",
-                &it.name,
-                "unexpected-item",
-                "",
-                format!("generator printed an item {} that the compiled tables do not have", it.name),
-            ));
             continue;
         }
         if !seen.insert(it.name.as_str()) {
@@ -1138,7 +1139,11 @@ pub fn check_output(which: &str, text: &str, comp: &BTreeMap<String, Val>) -> Ve
             ));
             continue;
         }
-        if let (Some(n), Val::Array(a)) = (it.declared_len, &it.value) {
+        let declared = it.declared_len.or_else(|| match it.declared_len_name.as_deref().and_then(|n| helpers.get(n)) {
+            Some(Val::Int(n)) => Some(*n as u64),
+            _ => None,
+        });
+        if let (Some(n), Val::Array(a)) = (declared, &it.value) {
             if n as usize != a.len() {
                 out.push(viol(
                     "R2",
